@@ -4,6 +4,7 @@ pub mod c03;
 pub mod c08;
 pub mod c15;
 pub mod c04;
+pub mod c05;
 pub mod c09;
 pub mod c13;
 pub mod ustream;
@@ -17,6 +18,7 @@ pub fn dispatch(args: &Args, rep: &Arc<Report>) -> bool {
         "c01" => c01::run(args, rep),
         "c02" => c02::run(args, rep),
         "c03" => c03::run(args, rep),
+        "c05" => c05::run(args, rep),
         "c08" => c08::run(args, rep),
         "c15" => c15::run(args, rep),
         "c04" => c04::run(args, rep),
